@@ -80,7 +80,10 @@ def run_seed(sid, tier="quick", confirm=True, props=None, benign=False):
             res["false_alarm"] = any(c["exit"] != 0 for c in res["checks"].values())
     finally:
         shutil.rmtree(scratch, ignore_errors=True)
-    with open(os.path.join(sdir, "result.json"), "w") as f:
+    vs = os.environ.get("VERIF_SEED", "0") or "0"
+    res["verif_seed"] = int(vs)
+    # runs at another generator seed (VERIF_SEED=k) are kept next to the default-seed result, which RESULTS.md reports
+    with open(os.path.join(sdir, "result.json" if vs == "0" else "result.seed%s.json" % vs), "w") as f:
         json.dump(res, f, indent=1)
     return res
 
